@@ -217,7 +217,40 @@ def _case_extra_arg(v, var, w, op):
     return getattr(v, ['lower', 'upper', 'title'][var % 3])('x', 'y')
 
 
+# ---- huge arguments (C09's quantifier: "zero and huge widths, indices far outside the text").  The allowed
+# error is "the error str itself raises for the same call"; the widths are chosen where that error does
+# not depend on how much memory the machine has (beyond sys.maxsize: OverflowError in str methods,
+# ValueError "Too many decimal digits" in str.__format__).
+_HUGE = [10 ** 30, 2 ** 64 + 5, 2 ** 200, 10 ** 19]
+
+
+def _huge_width(v, var, w, op):
+    how = ['ljust', 'rjust', 'center', 'zfill'][var % 4]
+    wd = _HUGE[(var // 4) % len(_HUGE)]
+    kw = _inplace_kw(v, op.get('ip'))
+    if _is_s(v) and how != 'zfill' and (var // 16) % 2:
+        kw['extend_formatting'] = False
+    if how == 'zfill':
+        return v.zfill(wd, **kw)
+    return getattr(v, how)(wd, ['*', ' ', '0'][(var // 32) % 3], **kw)
+
+
+def _huge_spec_width(v, var, w, op):
+    wd = _HUGE[var % len(_HUGE)]
+    spec = ['%d', '>%d', '*<%d', '.^%d', '*-^%d:bold', '<%d:red', ' +>%d'][(var // 4) % 7] % wd
+    if (var // 28) % 2:
+        return v.to_str(spec, reset_start=True)
+    return format(v, spec)
+
+
+def _huge_tabsize(v, var, w, op):
+    return v.expandtabs(_HUGE[var % len(_HUGE)], **_inplace_kw(v, op.get('ip')))
+
+
 IDX = (IndexError,)
+# str raises OverflowError or MemoryError for an unbuildable width depending only on its magnitude
+# (beyond / below sys.maxsize); center() halves the width first, so the two are not told apart here
+OVF = (OverflowError, MemoryError)
 
 TABLE = {
     'apply_bad_setting': (_apply_bad, TV),
@@ -232,11 +265,15 @@ TABLE = {
     'format_spec': (_spec, TV),
     'index_absent': (_str_index, TV),
     'split_empty_sep': (_split_empty, TV),
+    'huge_width': (_huge_width, OVF),
+    'huge_spec_width': (_huge_spec_width, TV),
+    'huge_tabsize': (_huge_tabsize, OVF),
 }
 NAMES = sorted(TABLE)
 
 # calls whose in-place form exists: a raised error must leave the receiver unchanged
-MAY_MUTATE = {'apply_bad_setting', 'remove_bad_setting', 'fmatch_bad_setting', 'unfmatch_bad_setting', 'fillchar'}
+MAY_MUTATE = {'apply_bad_setting', 'remove_bad_setting', 'fmatch_bad_setting', 'unfmatch_bad_setting', 'fillchar',
+              'huge_width', 'huge_tabsize'}
 
 # Wrong-*type* arguments are deliberately not injected: C09 quantifies over "arguments of the
 # documented types", so nothing is promised for them (the helper functions above that build such
